@@ -374,10 +374,20 @@ def STail.wf : STail → Bool
   | .step _ _ t => t.wf
   | .colon _ _ => true
 
+/-- the blanks in front of the colon of the third part -/
+def STail.lead : STail → Nat
+  | .absent => 0
+  | .step b _ _ => b
+  | .colon b _ => b
+
+/-- an omitted bound is an EMPTY piece of text between two `space`s of the grammar: the run of blanks
+    around it has ONE count, that of the `space` in front (`[`, `,` or the preceding `:`) — the count
+    behind it (`b1` for the first bound, the `b` of the third part for the second bound) is 0 -/
 def SSub.wf : SSub → Bool
   | .idx n => n.wf
   | .wild => true
-  | .slice s _ _ e t => optWf s && optWf e && t.wf
+  | .slice s b1 _ e t =>
+    optWf s && optWf e && t.wf && (s.isSome || b1 == 0) && (e.isSome || t.lead == 0)
 
 def SSub.isWild : SSub → Bool
   | .wild => true
